@@ -503,6 +503,18 @@ fn main() {
         std::process::exit(if r.violation.is_some() { 1 } else { 0 });
     }
 
+    // sanitizer engines beside the main workload: Miri (UB + data races in the worker hand-off, seeded
+    // schedules) in both tiers, ThreadSanitizer in thorough; both on the C-free vmon-miri build
+    let mut engines = Vec::new();
+    if !vmon::engines::engines_disabled() {
+        if run.quick() {
+            engines.push(("miri", "c13_smoke", vmon::engines::spawn_engine("run_miri.sh", &["c13_smoke", "0..1"], vec![("VERIF_MIRI_TIMEOUT", "900".into())])));
+        } else {
+            engines.push(("miri", "c13", vmon::engines::spawn_engine("run_miri.sh", &["c13", "0..8"], vec![("VERIF_MIRI_TIMEOUT", "7200".into())])));
+            engines.push(("tsan", "c13", vmon::engines::spawn_engine("run_tsan.sh", &["c13", "5"], vec![])));
+        }
+    }
+
     let mut cases = grid_cases(run.quick());
     let grid_n = cases.len();
     let n_random = run.tier.pick(40_000, 2_000_000);
@@ -531,5 +543,8 @@ fn main() {
     run.set("random_cases", json!(n_random));
     run.set("unjudged", json!(unjudged));
     run.engine("release", true, json!({"threads": par::workers()}));
+    for (name, filter, h) in engines {
+        vmon::engines::record_engine(&mut run, name, filter, h);
+    }
     run.finish(20);
 }
